@@ -89,7 +89,7 @@ def _vec_task(t):
     return acc
 
 
-def interactive_cases(fam, allm):
+def interactive_cases(fam, allm, every_value=False):
     """(script, description): complete default script, EOF after every prefix, one invalid answer at
     each question."""
     ms = dialogue.expected_metrics(fam, allm)
@@ -100,6 +100,10 @@ def interactive_cases(fam, allm):
     for m in ms:
         yield {m: ["?", T.METRICS[fam][m][-1]]}, "invalid answer at %s" % m
         yield {m: [T.METRICS[fam][m][-1].lower()]}, "lower-case answer at %s" % m
+    if allm and every_value:
+        for m in ms:
+            for v in T.METRICS[fam][m][1:]:
+                yield {m: [v]}, "answer %s at %s" % (v, m)
 
 
 class CountingStdin(dialogue.ReactiveStdin):
@@ -168,7 +172,7 @@ def _int_task(t):
     fam = cli.selected(vflag)[0][1]
     for f in T.FAMILIES:      # sessions of every version first (see c16.warm_up)
         dialogue.run_builder(f, True, True, {}, lambda m, f=f: [T.METRICS[f][m][0]])
-    for script, desc in interactive_cases(fam, "-a" in oflags):
+    for script, desc in interactive_cases(fam, "-a" in oflags, sorted(oflags) == ["-a", "-n"]):
         acc["n"] += 1
         acc["cmp"] += 1
         why, res = judge_interactive(vflag, oflags, script)
